@@ -351,7 +351,14 @@ def run(tier, seed, replay=None):
             if not idx:
                 R.violation({'what': 'order worker failed', 'detail': str(o2.get('results'))[:300], 'theorem': 'C20 process-order experiment'}, nofail=True)
     hdiff = [hs for hs in outs if outs[hs]['results'] != base['results'] or outs[hs]['tables'] != base['tables']]
-    R.obligation('same results, same production set and same conflict resolutions in fresh processes under several PYTHONHASHSEED values', not hdiff)
+    fd_so = [f for f in findings if f['classifier'].get('kind') == 'hashseed_suggestion_order']
+
+    def only_suggestion_order(hs):
+        idx_ = [i for i, (a, b) in enumerate(zip(base['per_item'], outs[hs]['per_item'])) if a != b]
+        idx_s_ = [i for i, (a, b) in enumerate(zip(base.get('per_item_sorted_suggestions', []), outs[hs].get('per_item_sorted_suggestions', []))) if a != b]
+        return bool(fd_so) and bool(idx_) and not idx_s_ and outs[hs]['tables'] == base['tables']
+    R.obligation('same results (up to the listed suggestion-order finding), same production set and same conflict resolutions in fresh '
+                 'processes under several PYTHONHASHSEED values', all(only_suggestion_order(hs) for hs in hdiff))
     for hs in hdiff[:2]:
         items2 = corpus(random.Random(seed), n_each // 2)
         idx = [i for i, (a, b) in enumerate(zip(base['per_item'], outs[hs]['per_item'])) if a != b]
